@@ -518,6 +518,9 @@ def term_matches(got, expected):
     expected = canon_expected(expected)
     if "match(" in expected:
         expected = sort_match_arms(expected)
+    # the unit value reads `()` whether it was written or is the value of a block without a tail (no position can hold both the unit and
+    # a string, so the string literal "()" is not confused with anything by this)
+    got, expected = got.replace("'()'", "()"), expected.replace("'()'", "()")
     if ANY not in expected:
         return got == expected
     rx = ".*".join(_re.escape(p) for p in expected.split(ANY))
